@@ -352,8 +352,13 @@ def C11(tier):
             jobs.append(djob('perm', rule, opts, 3, 1, 3, 5, symtie=True, budget=1500, weight=4))
         for w in ((2,) if quick else (1, 2, 4)):
             jobs.append(djob('withdraw', rule, opts, 4, 2, 2, 5 if not slow else 4, w=w, budget=300 if quick else 1500, weight=3))
+    # two candidates withdrawn at once (adjacent on some ballots)
+    for rule, opts in ([('wigm', grid.FX2), ('scotland', {}), ('meek', FX3), ('cfer', {})] if quick else RULE_CFGS):
+        jobs.append(djob('withdraw', rule, opts, 4, 1, 3, 4, w=[2, 3], budget=300 if quick else 1500, weight=3))
+    # a three-way tie decided by an earlier stage: four candidates
+    jobs.append(djob('perm', 'scotland', {}, 4, 2, 2, 5, symtie=True, perm_limit=4 if quick else 12, budget=300 if quick else 1500, weight=8))
     if not quick:
-        for rule, opts in [('wigm-prf', {}), ('scotland', {}), ('cfer-batch', {}), ('meek', FX3)]:
+        for rule, opts in [('wigm-prf', {}), ('cfer-batch', {}), ('meek', FX3)]:
             jobs.append(djob('perm', rule, opts, 4, 2, 2, 5, symtie=True, perm_limit=6, budget=1500, weight=6))
     return dict(jobs=jobs, level_text=LEVEL_DIFF, assumptions=DIFF_ASSUME, require_reach=['pair-compared'],
                 bounds=dict(renumbering='all permutations of 3 candidate ids (thorough: 6 sampled of 4), names, tie ranks (symbolic) and rankings carried along',
